@@ -571,3 +571,130 @@ def sim_uncontended(repo, seed=0, n=60):
 
 
 CHILDREN.update({"sim_recount": sim_recount, "sim_uncontended": sim_uncontended})
+
+
+# ------------------------------------------------------------------------------------------------
+def csv_roundtrip(repo, seed=0, n=150):
+    """C14 bounded: random workloads (multi-parent DAGs with several roots built out of breadth-first order, all seven
+    scaling laws, zero / tiny / huge / decimal values, memory 0 versus unset, several pipelines per arrival time) written
+    by the real writer and read back by the real reader; read-then-rewrite reproduces every row; malformed files refused."""
+    import io, csv, random
+    sys.path.insert(0, repo)
+    logging.disable(logging.CRITICAL)
+    from eudoxia.workload.csv_io import CSVWorkloadReader, CSVWorkloadWriter, WorkloadTraceGenerator, CSVOperatorRow
+    from eudoxia.workload.pipeline import Pipeline, Segment
+    from eudoxia.utils import Priority
+    rng = random.Random(seed)
+    laws = list(Segment.SCALING_FUNCS.keys())
+    nums = [0, 0.0, 1, 2, 2.5, 1e-9, 1e-300, 1e12, 123456789.123456789, 0.1 + 0.2, 1 / 3, 15, 0.004]
+    problems = []
+    gen = WorkloadTraceGenerator(workload=None, ticks_per_second=1, duration_secs=1)
+
+    def describe(p):
+        ops = list(p.values.node_lookup.values())
+        out = []
+        for op in ops:
+            segs = op.get_segments()
+            sg = segs[0]
+            law = [k for k, f in Segment.SCALING_FUNCS.items() if f == sg.scaling_func]
+            out.append((tuple(sorted(ops.index(q) for q in op.parents)), float(sg.baseline_cpu_seconds), law[0] if law else None,
+                        None if sg.memory_gb is None else float(sg.memory_gb), float(sg.storage_read_gb), len(segs)))
+        return (p.priority, out)
+
+    for case in range(n):
+        pipes, t = [], 0.0
+        for i in range(rng.randint(1, 6)):
+            if rng.random() < 0.6:
+                t += rng.choice([0.001, 0.5, 1, 1 / 3, 7.25, 1e-7])
+            p = Pipeline(f"orig{i}", rng.choice(list(Priority)))
+            ops = []
+            for j in range(rng.randint(1, 6)):
+                k = rng.randint(0, min(3, len(ops)))
+                parents = rng.sample(ops, k) if k else None      # k = 0 -> another root, possibly after non-roots
+                op = p.new_operator(parents)
+                op.add_segment(Segment(baseline_cpu_seconds=rng.choice(nums), cpu_scaling=rng.choice(laws),
+                                       memory_gb=rng.choice([None, None, 0, 0.0, 5, 0.001, 1e6]), storage_read_gb=rng.choice(nums)))
+                ops.append(op)
+            pipes.append((t, p))
+        buf = io.StringIO()
+        w = CSVWorkloadWriter(buf)
+        for i, (t, p) in enumerate(pipes):
+            for row in gen._pipeline_to_rows(p, f"p{i+1}", t):
+                w.write_row(row)
+        text = buf.getvalue()
+        try:
+            back = list(CSVWorkloadReader(io.StringIO(text)).batch_by_pipeline())
+            batches = list(CSVWorkloadReader(io.StringIO(text)).batch_by_arrival())
+        except Exception as e:
+            problems.append(("reader-refuses-what-the-writer-wrote", case, repr(e)[:200])); continue
+        if len(back) != len(pipes):
+            problems.append(("pipeline-count", case, len(back), len(pipes))); continue
+        for i, ((t, p), pa) in enumerate(zip(pipes, back)):
+            if pa.arrival_seconds != t:
+                problems.append(("arrival-time", case, i, pa.arrival_seconds, t))
+            if pa.pipeline.pipeline_id != f"p{i+1}":
+                problems.append(("pipeline-order-or-id", case, i))
+            a, b = describe(p), describe(pa.pipeline)
+            if a != b:
+                field = "priority" if a[0] != b[0] else "operator-count" if len(a[1]) != len(b[1]) else \
+                    next(("operator-%s" % ["parents", "cpu-seconds", "scaling-law", "memory", "read-size", "segments"][k]
+                          for x, y in zip(a[1], b[1]) for k in range(6) if x[k] != y[k]), "operator")
+                problems.append((field, case, i, str(a)[:200], str(b)[:200]))
+        flat = [pa for bt in batches for pa in bt]
+        if [pa.pipeline.pipeline_id for pa in flat] != [pa.pipeline.pipeline_id for pa in back] or \
+                any(pa.arrival_seconds != bt[0].arrival_seconds for bt in batches for pa in bt) or \
+                any(b1[0].arrival_seconds == b2[0].arrival_seconds for b1, b2 in zip(batches, batches[1:])):
+            problems.append(("batches-by-arrival", case))
+        # read -> write again reproduces every row (arrival column aside)
+        buf2 = io.StringIO()
+        w2 = CSVWorkloadWriter(buf2)
+        for i, pa in enumerate(back):
+            for row in gen._pipeline_to_rows(pa.pipeline, pa.pipeline.pipeline_id, pa.arrival_seconds):
+                w2.write_row(row)
+        # buf2 is a trace in the writer's own format (every number a float as the reader produced it); read it and write it once more
+        buf3 = io.StringIO()
+        w3 = CSVWorkloadWriter(buf3)
+        try:
+            for pa in CSVWorkloadReader(io.StringIO(buf2.getvalue())).batch_by_pipeline():
+                for row in gen._pipeline_to_rows(pa.pipeline, pa.pipeline.pipeline_id, pa.arrival_seconds):
+                    w3.write_row(row)
+        except Exception as e:
+            problems.append(("reader-refuses-what-the-writer-wrote", case, repr(e)[:200])); continue
+        r1 = [{k: v for k, v in r.items() if k != "arrival_seconds"} for r in csv.DictReader(io.StringIO(buf2.getvalue()))]
+        r2 = [{k: v for k, v in r.items() if k != "arrival_seconds"} for r in csv.DictReader(io.StringIO(buf3.getvalue()))]
+        if len(r1) != len(list(csv.DictReader(io.StringIO(text)))):
+            problems.append(("rewrite-row-count", case))
+        if r1 != r2:
+            problems.append(("rewrite-differs", case, str([(a, b) for a, b in zip(r1, r2) if a != b][:1])[:300]))
+    # malformed traces must be refused
+    hdr = "pipeline_id,arrival_seconds,priority,operator_id,parents,baseline_cpu_seconds,cpu_scaling,memory_gb,storage_read_gb\n"
+    good2 = "p1,1.5,QUERY,op1,,1,const,,10\np1,,,op2,op1,2,linear3,0,5\n"
+    bad = {"missing-priority-first-row": "p1,1.5,,op1,,1,const,,10\n", "missing-arrival-first-row": "p1,,QUERY,op1,,1,const,,10\n",
+           "priority-on-later-row": "p1,1.5,QUERY,op1,,1,const,,10\np1,,QUERY,op2,op1,2,const,,5\n",
+           "arrival-on-later-row": "p1,1.5,QUERY,op1,,1,const,,10\np1,1.5,,op2,op1,2,const,,5\n",
+           "zero-arrival-on-later-row": "p1,0,QUERY,op1,,1,const,,10\np1,0,,op2,op1,2,const,,5\n",
+           "zero-point-zero-arrival-on-later-row": "p1,1.5,QUERY,op1,,1,const,,10\np1,0.0,,op2,op1,2,const,,5\n",
+           "unknown-priority": "p1,1.5,URGENT,op1,,1,const,,10\n", "unknown-scaling-law": "p1,1.5,QUERY,op1,,1,cubic,,10\n",
+           "undefined-parent": "p1,1.5,QUERY,op1,,1,const,,10\np1,,,op2,op9,2,const,,5\n",
+           "parent-defined-later": "p1,1.5,QUERY,op1,op2,1,const,,10\np1,,,op2,,2,const,,5\n"}
+    try:
+        ok = list(CSVWorkloadReader(io.StringIO(hdr + good2)).batch_by_pipeline())
+        if len(ok) != 1 or len(list(ok[0].pipeline.values.node_lookup)) != 2:
+            problems.append(("well-formed-file-misread", "good2"))
+    except Exception as e:
+        problems.append(("well-formed-file-refused", repr(e)[:100]))
+    for name, body in bad.items():
+        try:
+            list(CSVWorkloadReader(io.StringIO(hdr + body)).batch_by_pipeline())
+            problems.append(("malformed-accepted:" + name, body))
+        except Exception:
+            pass
+    kinds = {}
+    for pb in problems:
+        kinds[pb[0]] = kinds.get(pb[0], 0) + 1
+    return {"name": "bounded:csv-roundtrip", "ok": not problems, "bounded": f"{n} random workloads (<= 6 pipelines x <= 6 operators), 10 malformed files",
+            "cases": n, "kinds": kinds, "finding_kinds": sorted(kinds), "witness": [list(map(str, p))[:5] for p in problems[:3]],
+            "detail": "round trips exact; malformed files refused" if not problems else str(kinds)}
+
+
+CHILDREN.update({"csv_roundtrip": csv_roundtrip})
